@@ -73,6 +73,8 @@ fixed('C16', 'sum_aper_area is NaN only', "ApertureStats.sum_aper_area NaN via t
 fixed('C16', 'centroids are correct for apertures', "ApertureStats.centroid off by the clipped part for apertures extending beyond the left/bottom edge (origin from the unclipped bbox)")
 fixed('C07', 'background_centroid samples', "SourceCatalog.background_centroid read the background at (row=x, col=y): map_coordinates given (xcen, ycen)")
 fixed('C13', 'PRFAdapter.evaluate uses yname', "PRFAdapter.evaluate: y branch keyed on xname; flux stored into the parameter named by yname (T-MIRROR copy-paste signature)")
+fixed('C15', 'calc_total_error accepts', "calc_total_error(int data): UFuncTypeError (in-place division on an integer copy)")
+fixed('C15', 'create_matching_kernel accepts', "create_matching_kernel(int PSFs): UFuncTypeError (in-place normalisation of integer copies)")
 # ---- C17 / C18
 fixed('C17', 'centroid_sources no longer', "centroid_sources(error=... or xpeak=/ypeak=) with >= 2 positions: NaN from the second source on (keyword dict reused across sources)")
 fixed('C18', 'make_model_image attaches', "make_model_image: unit-ful model with row 0 off the image raised UnitTypeError (units attached only when i == 0)")
